@@ -95,9 +95,11 @@ def gen_case(rng, idx):
         if mood in ("clean", "lossy", "dup") and rng.random() < 0.15 and max_tx > 2:
             plan[str(rng.randint(0, max_tx - 1))] = {"lost": False, "replies": [[1, rng.choice(FATAL_POOL)]]}
         policy = {"kind": "sim", "plan": plan, "exact": [k for k in range(4 * max_tx + 8) if rng.random() < 0.12],
+                  "late": dict((str(k), rng.choice([1, 2, T - 1, T, 2 * T + 1]))
+                               for k in range(4 * max_tx + 8) if rng.random() < 0.08),
                   "max_selects": 40 * max_tx + 200}
     return {"n_tries": n_tries, "timeout": T, "advance_seq": adv, "policy": policy, "ops": ops, "mood": mood,
-            "idx": idx}
+            "idx": idx, "buffer_size": rng.choice([256, 256, 256, 240, 230, 120, 100, 64, 16])}
 
 
 def special_cases(tier):
@@ -106,7 +108,9 @@ def special_cases(tier):
     # K2: window 1, the reply to the first transmission is duplicated; the copy arrives when the sequence
     # number of command 0 has come round to command 65536 and that command is waiting for its own reply.
     wrap = {"n_tries": 2, "timeout": 10, "advance_seq": 0, "mood": "seq-wrap-duplicate", "idx": -1,
-            "policy": {"kind": "sim", "plan": {"0": {"lost": False, "replies": [[1, None], [65537, None]]}},
+            "policy": {"kind": "sim",
+                       # further copies arrive after 2^k commands, k = 4..15: a shortened sequence mask would accept them
+                       "plan": {"0": {"lost": False, "replies": [[1, None]] + [[2 ** j + 1, None] for j in range(4, 17)]}},
                        "exact": [], "max_selects": 3 * n},
             "ops": [{"op": "burst", "window": 1, "cmds": [], "cmds_range": [0, n, 0]}]}
     # skip rule: window 2, command 0 (long extra timeout, request lost) stays outstanding while 65 540 other
@@ -274,6 +278,7 @@ def oracle(c, res):
         answered = set()              # commands for which an OK reply caused by one of their own transmissions arrived
         received = []                 # datagrams received so far in this call
         received_set = set()
+        received_whole = set()        # (rc, seq, src, digest of all the bytes)
         called = {}                   # cmd -> [datagram]
         fatal_seen = None
         for pos, t in enumerate(tr):
@@ -310,6 +315,7 @@ def oracle(c, res):
                 rc, seq, src = t[1:4]
                 received.append((rc, seq, src))
                 received_set.add((rc, seq, src))
+                received_whole.add(tuple(t[1:5]))
                 if fatal_seen is not None:
                     pass
                 if rc == RC_OK:
@@ -331,6 +337,9 @@ def oracle(c, res):
                 rc, seq, src = d
                 if d not in received_set:
                     fail("callback-invented-reply", "callback of command %d given a datagram that was not received" % cid)
+                elif tuple(t[2:6]) not in received_whole:
+                    fail("callback-truncated-reply", "callback of command %d given only part of the reply datagram "
+                         "(transmission %r)" % (cid, src))
                 elif rc != RC_OK:
                     fail("callback-non-ok-reply", "callback of command %d given a reply with return code %#x" % (cid, rc))
                 elif src not in tx_info or tx_info[src][0] != cid:
